@@ -590,7 +590,11 @@ class S:
 
     @property
     def dtype(self):
-        return FakeDType(self.nd if self.nd is not None else np.float64)
+        # a real np.dtype (the nominal one): code that asks a 0-d result for its dtype sees what NumPy shows.
+        # A symbolic *Python* scalar (nd is None) has no dtype attribute, exactly like a Python float.
+        if self.nd is None:
+            raise AttributeError("dtype")
+        return np.dtype(self.nd)
 
     def item(self):
         return self
